@@ -1,9 +1,10 @@
 #!/bin/bash
+# usage: harvest_witnesses.sh [seed-id prefix]
 # for every stored seed: apply it to /repo, run the quick check of its property with a few generator seeds until it is
 # caught, and append the input of the first concrete replay to corpus/<P>/seed_witnesses.jsonl (cases of the corpus
 # always run first, so the detection of a stored seed no longer depends on what the random generator happens to draw)
 cd /verif
-for d in seeded/*/; do
+for d in seeded/${1:-}*/; do
   id=$(basename $d); P=${id%%-*}
   grep -q '"neutralised"' $d/meta.json 2>/dev/null && continue
   pf=$d/patch.diff; [ -f $d/patch.rebased.diff ] && pf=$d/patch.rebased.diff
